@@ -506,6 +506,20 @@ def list_facade_findings(world):
                 it = list(lst)
                 if not (n == sz == len(it)):
                     out.append("%s: len()=%d size=%d iteration yields %d elements" % (R.vname(path), n, sz, len(it)))
+                else:
+                    # indexing agrees with the length: nothing at index len(), the last element at -1
+                    try:
+                        lst[n]
+                        out.append("%s: l[%d] is reachable although len()=%d" % (R.vname(path), n, n))
+                    except IndexError:
+                        pass
+                    if n > 0:
+                        last = lst[-1]
+                        same = (last is it[-1]) if node["elem"][0] == "obj" else (last == it[-1])
+                        if not same:
+                            out.append("%s: l[-1] is not the last element iteration yields" % (R.vname(path),))
+                if not (n == sz == len(it)):
+                    pass
                 elif node["elem"][0] in ("u", "s"):
                     for i in range(n):
                         if int(lst[i]) != int(it[i]):
